@@ -112,6 +112,14 @@ def internals(ver, s):
         obj = CLS[ver](s)
     except Exception as e:  # noqa
         return {"cls": "exc", "e": exc_obs(e)}
+    try:
+        return _internals(obj, ver)
+    except Exception as e:  # noqa - these quantities are not named by any property: a library without them has nothing to compare
+        return {"cls": "not-available", "e": exc_obs(e)}
+
+
+def _internals(obj, ver):
+    from decimal import Decimal as D, localcontext, ROUND_DOWN
     import importlib
     names = importlib.import_module("cvss.constants" + ver).METRICS_ABBREVIATIONS
     o = {"cls": "ok", "desc": [[m, esc(obj.get_value_description(m))] for m in names]}
